@@ -15,7 +15,7 @@ from prog import render
 
 AS_LIMIT = 2 << 30       # bytes of address space per worker
 SMALL_AS_LIMIT = 48 << 20   # ... when a small device is selected
-WATCHDOG = 10            # seconds per job
+WATCHDOG = 20            # seconds per job (the slowest job of the unchanged tree takes about 3 s on a loaded machine)
 
 
 def export(scratch):
@@ -348,7 +348,7 @@ def check(prop, tier, seed):
             "single_line_programs": nprod, "context_programs": len(ctx_texts), "small_device_resource_hogs": len(hogs), "multi_line_texts": len(texts),
             "small_stack_programs": len(small), "small_stack_bytes": SMALL_STACK, "resource_families": len(fam), "hostile_file_trees": len(trees), "heads": len(heads), "dictionary": len(dct), "arity": arity,
             "groups_judged": sum(1 for e in events if e["ev"] == "group"), "tlc": stats,
-            "slower_than_5s": slow, "limits": {"address_space_bytes": AS_LIMIT, "watchdog_s": WATCHDOG},
+            "slower_than_5s": slow, "slowest_job_s": round(max([r_.get("us", 0) for grp in (sres, mres, tres, hres, cres) for r_ in grp.values()] + [0]) / 1e6, 2), "limits": {"address_space_bytes": AS_LIMIT, "watchdog_s": WATCHDOG},
             "rejected_events": len([i for i in rejected if i < len(events)]),
             "binding_selftest": "%d/%d corrupted events rejected" % (ncan, len(can)),
             "exhaustive": True, "exhaustive_note": "the single-line product is complete; the multi-line part is sampled",
